@@ -4,5 +4,5 @@
 //! Real code: rumqttd::router::iobufs::Outgoing::{new, push_forwards, register_ack,
 //! register_pubrec, register_pubcomp, free_slots}, router::scheduler::Tracker::{new,
 //! try_ready, pause}.
-mod tracker;
-mod window;
+pub mod tracker;
+pub mod window;
